@@ -158,7 +158,7 @@ SPEC = dict(
     ],
     assumptions=[
         "transparency (same result/log/variables) is a tested metamorphic relation over generated programs, not a theorem about the Go evaluator",
-        "while a debugger is attached, function call enter / exit are properly nested for it: the sanity assertion of VisitStepOutState (top of the recorded call stack equals the returning call; a debugger detached inside one call and re-attached inside another panics there) is NOT modelled (the model keeps the call depth only)",
+        "the sanity assertion of VisitStepOutState (top of the recorded call stack equals the returning call) is proved to hold for event streams of ONE execution seen by a debugger attached at any moment with an empty recorded stack (ghost stack in Props/C15.lean); a debugger object detached inside one call and re-attached inside another (stale stack) is outside that shape and panics there",
         "the transparency generator is c15Gen (functions, recursion, loops, try/except incl. one-line, lists/maps, log), not the C04/C05 generators: no objects, closures, imports, mutex blocks, e.trace; self-containing values only as the known-finding corpus program",
         "one controller per thread at a time (two concurrent Continue calls for the same thread are outside the model)",
         "eventual resumption needs a fair Go scheduler and a terminating program",
@@ -178,8 +178,8 @@ META = dict(
                 "interleaving of controller and thread steps is at most 12 steps long and ends with the thread executing again with the "
                 "command (continue_always_releases); StopThreads on a suspended thread is a schedule of the same transition system and "
                 "releases it (no Continue of another controller in flight); suspension at an active break point whenever a thread in any "
-                "debugging situation visits a position different from the model's position field is.pos (source AND line; PARTIAL: the trace-level statement over the last executed position is not proved), no re-suspension on the same line after resume, "
-                "step-in/over/out targets for arbitrary balanced call nesting; the old code's lost resume "
+                "debugging situation arrives, along any trace, from a different position (source AND line; lastAt = the node visited last or the call at which it was last reported suspended; pos_tracks_lastAt, suspends_whenever_arriving), no re-suspension on the same line after resume, "
+                "step-in/over/out targets for arbitrary balanced call nesting; the call stack Go records always matches the returning call on every event stream of one execution seen by a debugger attached at any moment, and the model's depth is its length (callstack_assertion_never_fails, depth_is_stack_length); the old code's lost resume "
                 "is a reachable stuck state. Regenerated facts (type-checked extraction, three-valued): what the debugger's evaluator side "
                 "touches, maps only under the lock on both sides, debugger read at evaluation time, visit functions return nil. "
                 "Transparency of the Go debugger (same result, log, variables) is tested metamorphically, not proved; concurrency of several "
